@@ -7,6 +7,7 @@ import Inkayaku.Model.Pgn
 import Inkayaku.Model.Uci
 import Inkayaku.Model.SessionOps
 import Inkayaku.Model.Lichess
+import Inkayaku.Model.SpecSearch
 /-!
 `modeldriver`: the model side of the line protocol.  `modeldriver run` reads one request per line from stdin and
 writes one canonical answer per line.  Imports Model/Spec/Gen only (no Mathlib), so it links as a native executable.
@@ -38,8 +39,10 @@ def dispatch (op : String) (args : List String) : String :=
   | "san" => ChessOps.handleSan args
   | "eval" => ChessOps.handleEval args
   | "scorefromvalue" => ChessOps.handleScoreFromValue args
+  | "features" => ChessOps.handleFeatures args
   | "magic" => ChessOps.handleMagic args
   | "succ" => ChessOps.handleSucc args
+  | "legalafter" => ChessOps.handleLegalAfter args
   | "wf" => (match args with | [f] => ChessOps.withBoard f (fun b => if WF.wf b then "1" else "0") | _ => "bad-request")
   | "spec:legal" => SpecOps.handleLegal args
   | "spec:succ" => SpecOps.handleSucc args
@@ -47,6 +50,8 @@ def dispatch (op : String) (args : List String) : String :=
   | "spec:terminal" => SpecOps.handleTerminal args
   | "spec:san" => SpecOps.handleSan args
   | "spec:nq" => SpecOps.handleNq args
+  | "spec:perft" => SpecOps.handlePerft args
+  | "spec:legalafter" => SpecOps.handleLegalAfter args
   | "spec:finduci" => SpecOps.handleFindUci args
   | "spec:makeuci" => SpecOps.handleMakeUci args
   | "spec:ucipgn" => SpecOps.handleUciPgn args
@@ -55,6 +60,7 @@ def dispatch (op : String) (args : List String) : String :=
   | "spec:sanmv" => SpecOps.handleSanMv args
   | "spec:gamesan" => SpecOps.handleGameSan args
   | "session" => SessionOps.handleSession args
+  | "spec-search" => SpecSearch.handleSpecSearch args
   | "json" => Lichess.handleJson args
   | "pgn" => Pgn.handlePgn args
   | "uciparse" => Uci.handleUciParse args
